@@ -1,0 +1,75 @@
+//! Verification hooks (cargo feature `verif`, off by default).
+//! Nothing in here changes behaviour unless a test harness installs a handler.
+use futures::channel::mpsc::Receiver;
+use std::cell::RefCell;
+use std::sync::Arc;
+use std::sync::RwLock;
+
+use crate::bo::Databases;
+
+thread_local! {
+    static DATA_DIR: RefCell<Option<String>> = RefCell::new(None);
+}
+
+/// Overrides the data directory (NUN_DBS_DIR) for the calling thread only.
+pub fn set_data_dir(dir: Option<String>) {
+    DATA_DIR.with(|d| *d.borrow_mut() = dir);
+}
+
+pub fn data_dir() -> Option<String> {
+    DATA_DIR.with(|d| d.borrow().clone())
+}
+
+pub type YieldFn = fn(&'static str);
+pub type EventFn = fn(&str);
+/// (kind, peer name, local tcp addr, dbs, receiver) -> None when the harness took the link
+pub type LinkFn =
+    fn(&'static str, &str, &str, &Arc<Databases>, Receiver<String>) -> Option<Receiver<String>>;
+
+static YIELD: RwLock<Option<YieldFn>> = RwLock::new(None);
+static EVENT: RwLock<Option<EventFn>> = RwLock::new(None);
+static LINK: RwLock<Option<LinkFn>> = RwLock::new(None);
+
+pub fn set_yield_handler(f: Option<YieldFn>) {
+    *YIELD.write().unwrap() = f;
+}
+
+pub fn set_event_handler(f: Option<EventFn>) {
+    *EVENT.write().unwrap() = f;
+}
+
+pub fn set_link_handler(f: Option<LinkFn>) {
+    *LINK.write().unwrap() = f;
+}
+
+#[inline]
+pub fn yield_point(site: &'static str) {
+    let f = { *YIELD.read().unwrap() };
+    if let Some(f) = f {
+        f(site)
+    }
+}
+
+#[inline]
+pub fn event(what: &str) {
+    let f = { *EVENT.read().unwrap() };
+    if let Some(f) = f {
+        f(what)
+    }
+}
+
+/// Offers a replication link to the harness. Returns the receiver back when no handler is
+/// installed (or the handler declines), in which case the caller spawns the real link thread.
+pub fn offer_link(
+    kind: &'static str,
+    peer: &str,
+    local: &str,
+    dbs: &Arc<Databases>,
+    receiver: Receiver<String>,
+) -> Option<Receiver<String>> {
+    let f = { *LINK.read().unwrap() };
+    match f {
+        Some(f) => f(kind, peer, local, dbs, receiver),
+        None => Some(receiver),
+    }
+}
